@@ -321,6 +321,16 @@ func (s *fakeSource) Read(context.Context) ([]opencdc.Record, error) {
 }
 
 func (s *fakeSource) Ack(_ context.Context, ps []opencdc.Position) error {
+	if len(ps) == 0 {
+		// the real connector.Source.Ack evaluates p[len(p)-1]: an empty call panics the process. The model never
+		// emits an empty `sack` (hypothesis NoEmptyAckCall of Props/EndToEnd.lean); the token below has no model
+		// counterpart, so an engine that makes such a call fails the event-log equality.
+		s.e.mu.Lock()
+		s.e.log = append(s.e.log, "X[empty-ack-call]")
+		s.e.owner = append(s.e.owner, -1)
+		s.e.mu.Unlock()
+		return fmt.Errorf("Source.Ack called with no positions")
+	}
 	parts := make([]string, len(ps))
 	for i, p := range ps {
 		parts[i] = posOf(p).String()
